@@ -10,6 +10,9 @@ base = json.load(open("/root/.vp/BASELINE.json"))
 env = {k: v for k, v in os.environ.items() if k not in ("STREAMFLOW_VERIF",)}
 env["PYTHONPATH"] = repo
 with tempfile.TemporaryDirectory() as d:
+    # the suite uses ~/.streamflow/<version>/sqlite.db: a private HOME keeps concurrent runs from locking each other out
+    env["HOME"] = os.path.join(d, "home")
+    os.makedirs(env["HOME"])
     out = os.path.join(d, "r.xml")
     p = subprocess.run(["/venv/bin/python", "-m", "pytest", "-ra", "-q", "-p", "no:cacheprovider", "--timeout=900",
                         "--continue-on-collection-errors", "--junitxml=" + out], cwd=repo, env=env,
